@@ -22,7 +22,7 @@ fn scalar_pool() -> Vec<RVal> {
     .iter()
     .map(|x| RVal::num(*x))
     .collect();
-    for s in ["", "a", "b", "ab", "é", "10", "9"] {
+    for s in ["", "a", "b", "ab", "é", "10", "9", "B", "\u{ff5e}", "😀", "\u{e000}", "\u{ffff}"] {
         v.push(RVal::Str(s.to_string()));
     }
     v.push(RVal::Bool(true));
@@ -119,7 +119,7 @@ fn elem_op(sess: &Sess, op: &str, a: &RVal, b: &RVal) -> ROut {
 fn elem_pool(r: &mut Rng) -> RVal {
     match r.below(12) {
         0..=4 => RVal::num(*r.pick(&[0.0, -0.0, 1.0, 2.0, -3.0, 0.5, 0.1, 1e308, f64::INFINITY, f64::NEG_INFINITY, f64::NAN, 7.0, 2.0, 3.0])),
-        5 | 6 => RVal::Str(r.pick(&["", "a", "b", "ab", "é"]).to_string()),
+        5 | 6 => RVal::Str(r.pick(&["", "a", "b", "ab", "é", "\u{ff5e}", "😀", "\u{e000}", "B"]).to_string()),
         7 | 8 => RVal::Bool(r.chance(1, 2)),
         9 => RVal::Null,
         10 => RVal::List((0..r.below(3)).map(|_| RVal::num(r.below(4) as f64)).collect()),
@@ -137,7 +137,7 @@ fn typed_list(r: &mut Rng, op: &str, len: usize) -> Vec<RVal> {
                 if r.chance(1, 2) { RVal::Null } else { RVal::num(r.below(5) as f64) }
             }
             (0 | 1, _) => RVal::num(*r.pick(&[0.0, -0.0, 1.0, 2.0, -3.0, 0.5, 0.1, 1e308, f64::INFINITY, 7.0, 2.0])),
-            (2, "+" | "==" | "!=" | "<" | "<=" | ">" | ">=") => RVal::Str(r.pick(&["", "a", "b", "ab"]).to_string()),
+            (2, "+" | "==" | "!=" | "<" | "<=" | ">" | ">=") => RVal::Str(r.pick(&["", "a", "b", "ab", "B", "\u{ff5e}", "😀", "\u{fffd}z", "😀z"]).to_string()),
             _ => elem_pool(r),
         })
         .collect()
